@@ -24,7 +24,7 @@ namespace TianLow
 open Tian TianDsl TianDen TianSpec TianGraph TianLemma1 TianIdentify TianTotal TianVoc MG
 
 /-- every vertex of `N` occurs in `e` as a plain variable -/
-def Has (N : List Name) (e : Expr) : Prop := ∀ n ∈ N, Var.plain n ∈ Expr.iterVars e
+def HasPlain (N : List Name) (e : Expr) : Prop := ∀ n ∈ N, Var.plain n ∈ Expr.iterVars e
 
 /-- the children of a probability are plain variables -/
 def PlainCh : Expr → Prop
@@ -169,7 +169,7 @@ theorem lemma1Factor_has {pop : Option Var} {ch pa : List Var} {topo : List Name
 
 theorem lemma1_has {pop : Option Var} {ch pa : List Var} {D topo : List Name} {e : Expr}
     (hch : ∀ x ∈ ch, x = Var.plain x.name) (h : lemma1 D (.prob pop ch pa) topo = .ok e) :
-    Has D e ∧ PlainCh e := by
+    HasPlain D e ∧ PlainCh e := by
   unfold lemma1 at h
   split at h
   · cases h
@@ -263,8 +263,8 @@ theorem lemma4_low {q e : Expr} {D topo : List Name} (hD : D ≠ []) (hq : isFra
 /-! ### compute_c_factor, Lemma 3 -/
 
 theorem computeCFactor_low {q e : Expr} {D H topo : List Name} (hqq : IsQExpr q) (hpc : PlainCh q)
-    (hfps : isFracProdSum q = true → D ≠ [] ∧ Has D q)
-    (h : computeCFactor D H q topo = .ok e) : IsQExpr e ∧ Has D e ∧ PlainCh e := by
+    (hfps : isFracProdSum q = true → D ≠ [] ∧ HasPlain D q)
+    (h : computeCFactor D H q topo = .ok e) : IsQExpr e ∧ HasPlain D e ∧ PlainCh e := by
   unfold computeCFactor at h
   simp only at h
   split at h
@@ -282,8 +282,8 @@ theorem computeCFactor_low {q e : Expr} {D H topo : List Name} (hqq : IsQExpr q)
       | _ => simp [isProb] at hp
 
 theorem ancestralExpr_low {q e : Expr} {A T oA topo : List Name} (hqq : IsQExpr q) (hpc : PlainCh q)
-    (hT : Has T q) (hAT : ∀ a ∈ A, a ∈ T) (hoA : ∀ a ∈ A, a ∈ oA) (hne : oA ≠ [])
-    (h : ancestralExpr q A T oA topo = .ok e) : IsQExpr e ∧ Has A e ∧ PlainCh e := by
+    (hT : HasPlain T q) (hAT : ∀ a ∈ A, a ∈ T) (hoA : ∀ a ∈ A, a ∈ oA) (hne : oA ≠ [])
+    (h : ancestralExpr q A T oA topo = .ok e) : IsQExpr e ∧ HasPlain A e ∧ PlainCh e := by
   unfold ancestralExpr at h
   split at h
   · rename_i hf
@@ -336,8 +336,8 @@ theorem ancestralExpr_low {q e : Expr} {A T oA topo : List Name} (hqq : IsQExpr 
 /-! ### IDENTIFY -/
 
 theorem identifyAux_low (G : MG Name) (topo C : List Name) :
-    ∀ (fuel : Nat) (T : List Name) (q r : Expr), IsQExpr q → PlainCh q → Has T q →
-      identifyAux G topo C fuel T q = .ok (some r) → Has C r := by
+    ∀ (fuel : Nat) (T : List Name) (q r : Expr), IsQExpr q → PlainCh q → HasPlain T q →
+      identifyAux G topo C fuel T q = .ok (some r) → HasPlain C r := by
   intro fuel
   induction fuel with
   | zero => intro T q r _ _ _ h; simp [identifyAux] at h
@@ -412,7 +412,7 @@ theorem identifyAux_low (G : MG Name) (topo C : List Name) :
 /-- **IDENTIFY's answer for `C` mentions every vertex of `C`**, when `Q[T]` does and probabilities are over plain
 variables -/
 theorem identify_low (G : MG Name) (C T : List Name) (q r : Expr) (topo : List Name) (hqq : IsQExpr q)
-    (hpc : PlainCh q) (hT : Has T q) (h : identify G C T q topo = .ok (some r)) : Has C r :=
+    (hpc : PlainCh q) (hT : HasPlain T q) (h : identify G C T q topo = .ok (some r)) : HasPlain C r :=
   identifyAux_low G topo C _ T q r hqq hpc hT h
 
 end TianLow
